@@ -938,10 +938,13 @@ MANIFEST = dict(
     text="Theorems (Properties/C18.lean): checkModel_sound/_complete (executable admissibility check <-> declarative Admissible), "
          "matrix_encodes_admissible (any vector satisfying the rows and sign constraints of setupMatrix decodes to exact mole balance per "
          "element row, adjustments within bounds, fractions >= 0, final fraction 1, dissolve/precipitate signs), adjustment_within_declared, "
-         "mbRes_delta_form, minimal_antichain(_fold) (any enumeration order, any exact LP oracle: reported -minimal models form an antichain; "
+         "mbRes_delta_form, element_entry_reaches_all_rows / unnamed_row_keeps_default (tidy_inverse: a -balances entry naming a redox element reaches "
+         "every valence-state row), minimal_antichain(_fold) (any enumeration order, any exact LP oracle: reported -minimal models form an antichain; "
          "proved on the actual loop structure by invariant), range_contains_value. Obligations over generated data: my_array/delta of the real "
          "setup_inverse = setupMatrix/signOf on the parsed problem at 1e-12; every reported model (inv_delta1, min_delta, max_delta read "
-         "in-process) passes checkModel with totals from an independent speciation; punched cells = internal values = selected-output text; "
+         "in-process) passes checkModel with totals from an independent speciation and with the uncertainties DECLARED IN THE INPUT TEXT (read "
+         "independently by c18.read_declared: -uncertainty / -balances, element name -> all valence states, per-solution lists, padding, "
+         "absolute limits, pH), which are also compared with inv_ptr->elts[..].uncertainties and with Lean propagateUnc; punched cells = internal values = selected-output text; "
          "direct per-chemical-element oracle on the punched values with formula stoichiometry; search(oracle table) = reported sequence and "
          "counters of solve_inverse; -minimal antichain on reported bit sets.",
     note="Trusted: Lean kernel, harness/ph_inverse.cpp (friend access, resolution of reaction tokens to rows), tools/props/c18.py "
